@@ -58,6 +58,8 @@ type IPersist struct {
 	OpenWrites int      // WriteOps handles opened and not yet closed
 	// Yield, if set, is called before every storage call (outside the mutex).
 	Yield func(point, logID string)
+	// After, if set, is called after every forwarded storage call returned.
+	After func(point, logID string, err error)
 }
 
 // NewIPersist wraps inner.
@@ -160,6 +162,9 @@ func (p *IPersist) WriteOps(logID string) (persistence.LogStateWriteOps, error) 
 		return nil, err
 	}
 	w, err := p.Inner.WriteOps(logID)
+	if a := p.After; a != nil {
+		a(PWriteOps, logID, err)
+	}
 	if err != nil {
 		return nil, err
 	}
@@ -209,6 +214,9 @@ func (w *iWriter) Close() error {
 	// Close is always forwarded so that an injected Close error does not itself leak the
 	// underlying transaction.
 	err := w.inner.Close()
+	if a := w.p.After; a != nil {
+		a(PWriteClos, w.id, err)
+	}
 	w.p.mu.Lock()
 	if !w.closed {
 		w.closed = true
